@@ -72,7 +72,9 @@ class ARegridding(Adapter, ABC):
                 msg = "Target grid specification is already set, new specs differ"
                 raise FinamMetaDataError(msg)
 
-        self.input_grid = self.input_grid or in_info.grid
+        # data arrives in the layout of the delivered grid; a given input grid was
+        # checked to be compatible with it, but may be laid out differently
+        self.input_grid = in_info.grid or self.input_grid
         self.input_mask = self.input_mask or in_info.mask
         self.output_grid = self.output_grid or info.grid
 
